@@ -22,7 +22,7 @@ LEAN = dict(
     harness="c02_reject.py + state_common.py",
     extra_modules=["LeaspyVerif.Model.State", "LeaspyVerif.Model.Dag"],
     theorems=["rejected_full", "rejected_partial", "accepted", "revert_without_fork", "unforked_set_drops_fork",
-              "ind_sampler_step", "pop_block_step", "pop_sweep", "pop_iteration", "commutes_of_rowwise", "rejected_partial_rowwise"],
+              "ind_sampler_step", "pop_block_step", "pop_sweep", "pop_iteration", "ind_sweep", "commutes_of_rowwise", "rejected_partial_rowwise"],
     trusted_extra=[
         "values are abstract in the theorems (a revert selects, it never computes), so extreme / non-finite proposals are covered; "
         "on the real code they are exercised by the real-sampler runs with inflated proposal scales",
